@@ -7,6 +7,7 @@ require (
 	github.com/rs/zerolog v1.28.0
 	github.com/shutter-network/rolling-shutter/rolling-shutter v0.0.0
 	github.com/shutter-network/shutter/shlib v0.1.19
+	github.com/supranational/blst v0.3.14
 	github.com/tendermint/go-amino v0.16.0
 	github.com/tendermint/tendermint v0.37.0-rc2
 	google.golang.org/protobuf v1.36.6
@@ -34,7 +35,6 @@ require (
 	github.com/spf13/pflag v1.0.5 // indirect
 	github.com/spf13/viper v1.13.0 // indirect
 	github.com/subosito/gotenv v1.4.2 // indirect
-	github.com/supranational/blst v0.3.14 // indirect
 	golang.org/x/crypto v0.38.0 // indirect
 	golang.org/x/net v0.40.0 // indirect
 	golang.org/x/sys v0.33.0 // indirect
